@@ -1,5 +1,6 @@
 import XdsVerif.Proofs.Seq
 import XdsVerif.Properties.C01
+import XdsVerif.Properties.C13
 /-!
 # C02 — each response is ACKed or NACKed correctly; a NACK changes nothing
 About `step cfg s (.push r now)` in an arbitrary state `s` (hence at any point of any history).
@@ -70,6 +71,62 @@ theorem decodes_iff (r : Resp) :
   unfold Resp.decodes
   cases hr : r.rt <;> simp [List.all_eq_true]
   cases r.slots <;> simp
+
+/-! ### what "undecodable" means: the slots of the state machine against the decoder model (C11–C13)
+
+The state machine abstracts a response to a list of slots (`good name content` / `bad`). The decoder model works on
+message trees. The two are tied here: a slot is `bad` exactly when the decoder model reports an error for that
+resource, so "NACK" in `ack_exact` / `nack_frame` is "the decoder rejected something" and nothing else. -/
+
+/-- the slots of a route-table response (content stamp = the table's name; the field content is C11) -/
+def slotsOfRDS (xs : List (Decode.PAny Decode.PRouteConfiguration)) : List Slot :=
+  xs.map (fun x => match x with
+    | .ok c => if C13.rcValid c then .good c.name c.name else .bad
+    | _ => .bad)
+
+theorem slotsOfRDS_all_good (xs : List (Decode.PAny Decode.PRouteConfiguration)) :
+    (slotsOfRDS xs).all Slot.isGood = xs.all C13.slotValidR := by
+  induction xs with
+  | nil => rfl
+  | cons x xs ih =>
+    simp only [slotsOfRDS, List.map_cons, List.all_cons] at ih ⊢
+    rw [ih]
+    cases x with
+    | badUrl => simp [C13.slotValidR, Slot.isGood]
+    | badBytes => simp [C13.slotValidR, Slot.isGood]
+    | ok c =>
+      simp only [C13.slotValidR]
+      cases C13.rcValid c <;> simp [Slot.isGood]
+
+/-- **a route-table response is NACKed exactly when the decoder reports an error** (wrong type URL, invalid bytes, a
+route without match or action), for every list of payloads `proto.Unmarshal` can produce -/
+theorem rds_nack_iff_decoder_error (compiles : Decode.Oracles) (xs : List (Decode.PAny Decode.PRouteConfiguration))
+    (hw : xs.all C13.slotWireR = true) (d : Decode.Decoded Decode.DRouteCfg)
+    (h : Decode.decodeRDS C13.F compiles xs = .ok d) (version nonce : String) :
+    ({ rt := .rds, version := version, nonce := nonce, slots := slotsOfRDS xs } : Resp).decodes = true ↔ d.errors = [] := by
+  rw [C13.rds_error_iff_invalid compiles xs hw d h]
+  simp only [Resp.decodes]
+  rw [slotsOfRDS_all_good]
+
+/-- clusters and load assignments: a slot is bad exactly when its payload has the wrong type URL or does not parse -/
+def slotsOfCE {α : Type} (nameOf : α → Name) (xs : List (DecodeCE.Slot α)) : List Slot :=
+  xs.map (fun x => match x with | .ok c => .good (nameOf c) (nameOf c) | _ => .bad)
+
+theorem cds_nack_iff_decoder_error (cs : List (DecodeCE.Slot DecodeCE.PCluster)) (version nonce : String) :
+    ({ rt := .cds, version := version, nonce := nonce, slots := slotsOfCE (·.name) cs } : Resp).decodes = true ↔
+      (DecodeCE.decodeCDS cs).errors = 0 := by
+  rw [(C13.cds_eds_error_iff cs []).1]
+  simp only [Resp.decodes, slotsOfCE, List.all_map, List.all_eq_true]
+  constructor
+  · intro h s hs
+    have := h s hs
+    cases s with
+    | ok c => exact ⟨c, rfl⟩
+    | badUrl => simp [Slot.isGood] at this
+    | badBytes => simp [Slot.isGood] at this
+  · intro h s hs
+    obtain ⟨c, hc⟩ := h s hs
+    subst hc; simp [Slot.isGood]
 
 /-! non-vacuity: a NACK after an ACK keeps the version and the cache -/
 example : (run C01.exCfg init (C01.exOps ++
